@@ -23,7 +23,8 @@ Key(e) == 1000 * e.cl + 2 * e.sid + (IF e.down THEN 1 ELSE 0)
 NoStream == [w |-> 0, weof |-> FALSE, r |-> 0, reof |-> FALSE]
 T0 == [retry |-> FALSE, expect |-> FALSE, srvp |-> {}, term |-> {},
        issued |-> <<>>, retired |-> <<>>, route |-> {}, pred |-> {},
-       tokens |-> {}, created |-> {}, W |-> <<>>, str |-> <<>>]
+       tokens |-> {}, created |-> {}, W |-> <<>>, str |-> <<>>,
+       badterm |-> FALSE]      \* some connection ended with a transport error of the core's own making
 
 Get(f, k, default) == IF k \in DOMAIN f THEN f[k] ELSE default
 Put(f, k, v) == (k :> v) @@ f
@@ -61,8 +62,10 @@ Adv(s, e) ==
          IF e.p \in s.srvp THEN [s EXCEPT !.retired = Put(@, e.p, Get(@, e.p, {}) \cup {e.cid}),
                                           !.pred = CidRetiredF(@, e.cid, e.p)]
          ELSE s
+    \* codes: 0 NO_ERROR (close), 1 (idle timeout), 7193 (the scenario's own error close)
     [] e.op = "term" -> [s EXCEPT !.term = @ \cup {e.p},
-                                  !.pred = IF e.p \in s.srvp THEN TerminatedF(@, e.p) ELSE @]
+                                  !.pred = IF e.p \in s.srvp THEN TerminatedF(@, e.p) ELSE @,
+                                  !.badterm = @ \/ e.code \notin {0, 1, 7193}]
     [] e.op = "route" -> [s EXCEPT !.route = Pairs(e.route)]
     [] e.op = "wcreate" ->
          [s EXCEPT !.W = NewWaiterF(Put(@, e.w, NoWaiter), e.w, e.kind, e.p, e.p \in s.term)]
@@ -115,7 +118,9 @@ Clauses(s, e) ==
     [] e.op = "final" ->
          << <<"no-stale-route", NoStaleRouteOk(s.route, s.term)>>,
             <<"reachable", ReachableOk(s.route, s.srvp \ s.term, s.issued, s.retired)>>,
-            <<"stream-complete", (s.expect /\ e.lossless) =>
+            \* demanded when nothing was dropped, nobody closes before the echoes were read and the
+            \* core did not end a connection with a protocol error of its own
+            <<"stream-complete", (s.expect /\ e.lossless /\ ~s.badterm) =>
                  \A k \in DOMAIN s.str : s.str[k].weof => (s.str[k].reof /\ s.str[k].r = s.str[k].w)>>,
             <<"model:all-terminated", e.allterm>> >>
     [] OTHER -> << <<"ok", TRUE>> >>
